@@ -70,7 +70,9 @@ CHECKS["C07"] = dict(
          "delays the goroutine reaching yield point b until a was reached; each run is a child process; verdicts come only from observable behaviour. Further states: the same object opened "
          "again, a transport Close that reports an error, two concurrent Closes held at the entry of the shutdown. Reopen.tla models what one driver object carries from one session into the next "
          "(queue, read under way, read loops, capability list, delimiter, message-ids and store, cached privilege level): the invariant Clean holds for the resets the code makes and is violated by "
-         "each of 8 alternative reset decisions; the counterexamples are replayed as reopen histories by the harnesses of C01, C03, C04, C05, C08, C09, C10 and C18.",
+         "each of 9 alternative decisions (among them: Open on a session that is still up goes straight on); the counterexamples are replayed as reopen histories by the harnesses of C01, C03, C04, C05, C06, C08, C09, C10 and C18. "
+         "LifecycleTrace.tla (direction V): the yield sequences recorded from the real goroutines of every run on the scripted pipe (about 900 per quick run) are validated against Lifecycle.tla - a model step is a "
+         "silent step that must be followed by exactly the hook events the code emits; a rejection is model drift (reported in the evidence, not a verdict); corrupted logs must be rejected (binding guard).",
     note="Trusted: TLC; the gate (15 ms bound) as scheduler; runtime.Stack census (a reader stuck in a transport Read that never returns is not a leak). Genuine defects repaired by fix: commits 31f9756, 46f498f, 9f0231e, 0de6c00, 3360717, a94e4ce, 2c64539, ac60d8f, 2ec7ac6, e610bf3.")
 CHECKS["C04"] = dict(
     category="model_checking", design_ref="DESIGN.md §5 C04, §11",
